@@ -59,7 +59,17 @@ fn big_payload(c: (u8, u32, u32)) -> &'static Vec<u8> {
 	&all[BIG_TILES.iter().position(|t| *t == c).unwrap()]
 }
 
+const M31: u32 = 0x7fff_ffff; // 2^31 - 1
+const M30: u32 = 0x3fff_ffff;
+const Z31_LO: [(u8, u32, u32); 5] = [(30, 0, 0), (30, 1, 1), (31, 0, 0), (31, 1, 0), (31, 3, 2)];
+const Z31_HI: [(u8, u32, u32); 5] = [(30, M30, M30), (30, M30 - 1, M30), (31, M31, M31), (31, M31 - 1, M31), (31, M31, M31 - 2)];
+/// `fault_dir`: (1,1,1) is deleted, (2,1,2) is replaced by a directory after start-up
+const FAULT_DIR_INTACT: [(u8, u32, u32); 6] = [(0, 0, 0), (1, 0, 0), (2, 3, 3), (3, 7, 0), (3, 0, 7), (3, 4, 5)];
+
 fn coords_str(t: &[(u8, u32, u32)]) -> String {
+	if t.is_empty() {
+		return "-".into();
+	}
 	t.iter().map(|(z, x, y)| format!("{z}/{x}/{y}")).collect::<Vec<_>>().join(",")
 }
 
@@ -88,22 +98,36 @@ struct SourceDef {
 	actual: TileCompression,
 	fmt: &'static str,
 	path: PathBuf,
-	/// holds BIG_TILES (large incompressible payloads) instead of TILES
-	big: bool,
+	/// tile set: "std" = TILES, "big" = BIG_TILES (large incompressible payloads), "z31lo"/"z31hi" = tiles at zoom 30/31 at
+	/// the origin / the far corner of the level, "fault_*" = TILES, partly or wholly made unreadable after the server started
+	set: &'static str,
 }
 impl SourceDef {
 	fn mislabelled(&self) -> bool {
 		self.comp != self.actual
 	}
+	fn big(&self) -> bool {
+		self.set == "big"
+	}
+	/// tiles written into the container
+	fn written(&self) -> &'static [(u8, u32, u32)] {
+		match self.set {
+			"big" => &BIG_TILES,
+			"z31lo" => &Z31_LO,
+			"z31hi" => &Z31_HI,
+			_ => &TILES,
+		}
+	}
+	/// tiles the running server can still deliver (what the statement calls "the source holds a tile")
 	fn tiles(&self) -> &'static [(u8, u32, u32)] {
-		if self.big {
-			&BIG_TILES
-		} else {
-			&TILES
+		match self.set {
+			"fault_dir" => &FAULT_DIR_INTACT,
+			"fault_tar" | "fault_versatiles" => &[],
+			_ => self.written(),
 		}
 	}
 	fn payload(&self, c: (u8, u32, u32)) -> Vec<u8> {
-		if self.big {
+		if self.big() {
 			big_payload(c).clone()
 		} else {
 			payload(self.fmt, c)
@@ -160,13 +184,29 @@ fn source_defs(dir: &PathBuf, thorough: bool) -> Vec<SourceDef> {
 				format!("{}_{}_{}_really_{}", &container[..1], cname(comp), fmt, cname(actual))
 			};
 			let path = if container == "directory" { dir.join(format!("{id}_dir")) } else { dir.join(format!("{id}.{container}")) };
-			SourceDef { path, id, container, comp, actual, fmt, big: false }
+			SourceDef { path, id, container, comp, actual, fmt, set: "std" }
 		})
 		.chain(
 			// large tiles: one source per stored compression (+ one pmtiles), vector format so that nothing is "incompressible by MIME"
 			[("versatiles", Uncompressed), ("versatiles", Gzip), ("versatiles", Brotli), ("pmtiles", Gzip)].into_iter().map(|(container, comp)| {
 				let id = format!("big_{}_{}", &container[..1], cname(comp));
-				SourceDef { path: dir.join(format!("{id}.{container}")), id, container, comp, actual: comp, fmt: "pbf", big: true }
+				SourceDef { path: dir.join(format!("{id}.{container}")), id, container, comp, actual: comp, fmt: "pbf", set: "big" }
+			}),
+		)
+		.chain(
+			// tiles at zoom 30 and 31 (z ≤ 31 is legal everywhere): near the origin and at the far corner of the level
+			[("versatiles", Gzip, "z31lo"), ("versatiles", Uncompressed, "z31hi"), ("pmtiles", Brotli, "z31hi"), ("directory", Gzip, "z31lo"), ("directory", Uncompressed, "z31hi")].into_iter().map(|(container, comp, set)| {
+				let id = format!("{set}_{}_{}", &container[..1], cname(comp));
+				let path = if container == "directory" { dir.join(format!("{id}_dir")) } else { dir.join(format!("{id}.{container}")) };
+				SourceDef { path, id, container, comp, actual: comp, fmt: "pbf", set }
+			}),
+		)
+		.chain(
+			// sources that are damaged AFTER the server has opened them: lookups fail inside the reader
+			[("directory", Gzip, "fault_dir"), ("tar", Gzip, "fault_tar"), ("versatiles", Gzip, "fault_versatiles")].into_iter().map(|(container, comp, set)| {
+				let id = set.to_string();
+				let path = if container == "directory" { dir.join(format!("{id}_dir")) } else { dir.join(format!("{id}.{container}")) };
+				SourceDef { path, id, container, comp, actual: comp, fmt: "pbf", set }
 			}),
 		)
 		.collect()
@@ -175,12 +215,12 @@ fn source_defs(dir: &PathBuf, thorough: bool) -> Vec<SourceDef> {
 fn write_sources(defs: &[SourceDef], rt: &tokio::runtime::Runtime) {
 	for d in defs {
 		let tiles: Vec<((u8, u32, u32), Vec<u8>)> = d
-			.tiles()
+			.written()
 			.iter()
 			.map(|c| {
 				let p = d.payload(*c);
 				// large blobs: cheapest encoder settings (the stored size is what matters)
-				let enc = if d.big && d.actual == TileCompression::Gzip { crate::c04::gz_enc(&p, 1) } else if d.big && d.actual == TileCompression::Brotli { crate::c04::br_enc(&p, 1, 22) } else { indep_enc(d.actual, &p) };
+				let enc = if d.big() && d.actual == TileCompression::Gzip { crate::c04::gz_enc(&p, 1) } else if d.big() && d.actual == TileCompression::Brotli { crate::c04::br_enc(&p, 1, 22) } else { indep_enc(d.actual, &p) };
 				(*c, enc)
 			})
 			.collect();
@@ -724,7 +764,7 @@ fn reader_case(out: &mut Out, d: &SourceDef, flip: bool, c: (u8, u32, u32), rt: 
 
 fn reader_out_of_range(out: &mut Out, defs: &[SourceDef], rt: &tokio::runtime::Runtime) {
 	let coords: Vec<(u8, u32, u32)> = vec![(0, 0, 1), (1, 0, 2), (1, 2, 0), (2, 1, 4), (3, 0, 8), (3, 7, u32::MAX), (5, 0, 32), (31, 0, u32::MAX), (3, u32::MAX, u32::MAX)];
-	for d in defs.iter().filter(|d| (d.fmt == "pbf" || d.fmt == "png") && !d.big && !d.mislabelled() && matches!(d.container, "versatiles" | "pmtiles" | "mbtiles")) {
+	for d in defs.iter().filter(|d| (d.fmt == "pbf" || d.fmt == "png") && d.set == "std" && !d.mislabelled() && matches!(d.container, "versatiles" | "pmtiles" | "mbtiles")) {
 		for flip in [false, true] {
 			if d.container != "mbtiles" && !flip {
 				continue; // plain versatiles/pmtiles lookups are covered over HTTP
@@ -818,7 +858,7 @@ pub fn run(args: &Args) {
 		quiet_panics();
 	}
 	let mut out = Out::new(&args.out);
-	out.rule = "raw HTTP/1.1 GET /tiles/<id>/<rest> against the freshly built `versatiles serve` in modes best / --fast / --flip-y / --swap-xy / both, and --override-input-compression {uncompressed,gzip,brotli} alone and combined with --flip-y / --swap-xy, over versatiles, pmtiles (3 stored compressions × pbf/png), tar, directory, mbtiles (pbf.gz, png), the other media types, LARGE incompressible tiles (stored sizes just below/above 64 KiB and 1 MiB, 1.2 MiB, 2 MiB; uncompressed, gzip, brotli) requested with absent / identity / gzip / br / 'deflate, zstd' / 'gzip, br' in best and --fast mode, and MISLABELLED sources (stored bytes encoded differently from what the container declares, served with the matching override); <rest> classes: stored, in-range absent, out-of-range x/y (2^z, 2^z+1, 2^32-1 …), deep zoom, z>31 / overflowing numbers, non-numeric, non-canonical (+, leading zeros, empty segments, extra parts), short / empty-segment-only paths; Accept-Encoding absent / empty / * / ordered subsets of {gzip,br,deflate,identity,zstd} in lower, upper, mixed case with positive weights; plus the whole decision table of optimize_compression (3 inputs × 8 allowed sets × 3 goals × valid/empty/truncated blob); non-trivial = a 200 response, an out-of-range or short path, or an optimize case with a valid blob and 'Uncompressed' allowed; distinct by case text".into();
+	out.rule = "raw HTTP/1.1 GET /tiles/<id>/<rest> against the freshly built `versatiles serve` in modes best / --fast / --flip-y / --swap-xy / both, and --override-input-compression {uncompressed,gzip,brotli} alone and combined with --flip-y / --swap-xy, over versatiles, pmtiles (3 stored compressions × pbf/png), tar, directory, mbtiles (pbf.gz, png), the other media types, sources holding tiles at zoom 30 and 31 (origin and far corner of the level), sources damaged after the server opened them (deleted / replaced tile files of a directory, truncated tar and versatiles files: reader errors at lookup time must give 404), LARGE incompressible tiles (stored sizes just below/above 64 KiB and 1 MiB, 1.2 MiB, 2 MiB; uncompressed, gzip, brotli) requested with absent / identity / gzip / br / 'deflate, zstd' / 'gzip, br' in best and --fast mode, and MISLABELLED sources (stored bytes encoded differently from what the container declares, served with the matching override); <rest> classes: stored, in-range absent, out-of-range x/y (2^z, 2^z+1, 2^32-1 …), deep zoom, z>31 / overflowing numbers, non-numeric, non-canonical (+, leading zeros, empty segments, extra parts), short / empty-segment-only paths; Accept-Encoding absent / empty / * / ordered subsets of {gzip,br,deflate,identity,zstd} in lower, upper, mixed case with positive weights; plus the whole decision table of optimize_compression (3 inputs × 8 allowed sets × 3 goals × valid/empty/truncated blob); non-trivial = a 200 response, an out-of-range or short path, or an optimize case with a valid blob and 'Uncompressed' allowed; distinct by case text".into();
 	let rt = runtime();
 	let dir = args.out.join("c05");
 	std::fs::create_dir_all(&dir).unwrap();
@@ -830,8 +870,9 @@ pub fn run(args: &Args) {
 		std::process::exit(3);
 	}
 	// server instances.  Correctly labelled sources: best / --fast serve all of them, the transforming instances a subset.
-	let good: Vec<SourceDef> = defs.iter().filter(|d| !d.mislabelled() && !d.big).cloned().collect();
-	let bigs: Vec<SourceDef> = defs.iter().filter(|d| d.big).cloned().collect();
+	let good: Vec<SourceDef> = defs.iter().filter(|d| !d.mislabelled() && d.set == "std").cloned().collect();
+	let bigs: Vec<SourceDef> = defs.iter().filter(|d| matches!(d.set, "big" | "z31lo" | "z31hi")).cloned().collect();
+	let faulty: Vec<SourceDef> = defs.iter().filter(|d| d.set.starts_with("fault_")).cloned().collect();
 	let sub: Vec<SourceDef> = good.iter().filter(|d| (d.fmt == "pbf" || d.fmt == "png") && (d.container == "mbtiles" || d.comp == TileCompression::Gzip)).cloned().collect();
 	let mut servers = vec![
 		start_server(&bin, &good, false, false, false, None, &dir),
@@ -843,7 +884,7 @@ pub fn run(args: &Args) {
 	// `--override-input-compression X` alone and combined with --flip-y / --swap-xy: every source whose bytes really
 	// are X-encoded, whatever its container declares (the mislabelled ones plus the correctly labelled pbf ones)
 	for x in COMPS {
-		let pool: Vec<SourceDef> = defs.iter().filter(|d| !d.big && d.actual == x && (d.mislabelled() || (d.fmt == "pbf" && d.container != "mbtiles"))).cloned().collect();
+		let pool: Vec<SourceDef> = defs.iter().filter(|d| d.set == "std" && d.actual == x && (d.mislabelled() || (d.fmt == "pbf" && d.container != "mbtiles"))).cloned().collect();
 		servers.push(start_server(&bin, &pool, false, false, false, Some(x), &dir));
 		servers.push(start_server(&bin, &pool, false, true, false, Some(x), &dir));
 		servers.push(start_server(&bin, &pool, true, false, true, Some(x), &dir));
@@ -857,6 +898,19 @@ pub fn run(args: &Args) {
 	let n_general = servers.len();
 	servers.push(start_server(&bin, &bigs, false, false, false, None, &dir));
 	servers.push(start_server(&bin, &bigs, true, false, false, None, &dir));
+	// one instance over sources that are damaged now that it has opened (indexed) them: the lookups fail inside the reader
+	servers.push(start_server(&bin, &faulty, false, false, false, None, &dir));
+	for d in &faulty {
+		match d.set {
+			"fault_dir" => {
+				std::fs::remove_file(d.path.join("1/1/1.pbf.gz")).expect("fault_dir: tile file to delete");
+				std::fs::remove_file(d.path.join("2/1/2.pbf.gz")).expect("fault_dir: tile file to replace");
+				std::fs::create_dir_all(d.path.join("2/1/2.pbf.gz")).unwrap();
+			}
+			"fault_tar" => std::fs::OpenOptions::new().write(true).open(&d.path).unwrap().set_len(700).unwrap(),
+			_ => std::fs::OpenOptions::new().write(true).open(&d.path).unwrap().set_len(66).unwrap(),
+		}
+	}
 	let cx = Ctx { servers: &servers, defs: &defs };
 
 	if let Some(p) = &args.replay {
@@ -979,17 +1033,44 @@ pub fn run(args: &Args) {
 		];
 		for srv in &servers[n_general..] {
 			for d in srv.defs.iter() {
-				for (ti, c) in d.tiles().iter().enumerate() {
+				for (ti, c) in d.written().iter().enumerate() {
 					for (hi, (acc, listed)) in headers.iter().enumerate() {
 						// best mode + `br` offered + not stored as brotli ⇒ the server brotli-compresses (quality 10) the whole
 						// blob: seconds for the > 1 MiB classes.  Quick tier: do that once per source, thorough: always.
-						let server_compresses_brotli = !srv.fast && listed.iter().any(|l| l == "br") && d.comp != TileCompression::Brotli;
+						let server_compresses_brotli = d.big() && !srv.fast && listed.iter().any(|l| l == "br") && d.comp != TileCompression::Brotli;
 						if server_compresses_brotli && ti >= 2 && !(args.thorough() || (ti == 3 && hi == 3 && d.container == "versatiles" && d.comp == TileCompression::Gzip)) {
 							continue;
 						}
+						if !d.big() && hi % 2 == 1 && !args.thorough() {
+							continue;
+						}
 						let rest = format!("{}/{}/{}", c.0, c.1, c.2);
-						do_request(&mut out, &cx, srv, d, &rest, acc, Some((Expect::Coord(c.0 as u64, c.1 as u64, c.2 as u64), listed.clone())), "big_tile");
-						out.count(&format!("big_tile_{}", BIG_SIZES[ti]));
+						let class = match d.set {
+							"big" => "big_tile",
+							"z31lo" | "z31hi" => "zoom_30_31",
+							_ => "reader_fault",
+						};
+						do_request(&mut out, &cx, srv, d, &rest, acc, Some((Expect::Coord(c.0 as u64, c.1 as u64, c.2 as u64), listed.clone())), class);
+						if d.big() {
+							out.count(&format!("big_tile_{}", BIG_SIZES[ti]));
+						}
+					}
+				}
+				if d.set.starts_with("z31") {
+					// neighbours of the stored zoom-31 tiles, the level border, and zoom levels that do not exist
+					let extra: Vec<(String, Expect)> = vec![
+						("31/7/7".into(), Expect::Coord(31, 7, 7)),
+						(format!("31/{}/{}", M31 - 5, M31 - 5), Expect::Coord(31, (M31 - 5) as u64, (M31 - 5) as u64)),
+						("31/2147483648/0".into(), Expect::Coord(31, 2147483648, 0)),
+						("31/0/2147483648".into(), Expect::Coord(31, 0, 2147483648)),
+						(format!("31/{}/{}", u32::MAX, u32::MAX), Expect::Coord(31, u32::MAX as u64, u32::MAX as u64)),
+						(format!("30/{}/{}", M31, M31), Expect::Coord(30, M31 as u64, M31 as u64)),
+						("32/0/0".into(), Expect::Unparsable),
+						("255/0/0".into(), Expect::Unparsable),
+						(format!("31/{}/{}.pbf", d.written()[2].1, d.written()[2].2), Expect::Coord(31, d.written()[2].1 as u64, d.written()[2].2 as u64)),
+					];
+					for (rest, exp) in extra {
+						do_request(&mut out, &cx, srv, d, &rest, &Some("gzip".to_string()), Some((exp, vec!["gzip".into()])), "zoom_30_31");
 					}
 				}
 			}
